@@ -721,7 +721,11 @@ pub fn recovery(trace: &[Value]) -> Vec<Value> {
         let post = &e["post"];
         let v = lines.entry((n, c)).or_default();
         if v.is_empty() {
-            v.push(json!({"ev":"Reset","run":run,"n":n,"c":c,"clean":clean}));
+            // one of quinn's own congestion controllers (the default is Cubic), not a test controller of the harness
+            let side = if n == 0 { "server" } else { "client" };
+            let cc = cfgx[side]["cc"].as_str().unwrap_or("cubic");
+            let builtin = matches!(cc, "cubic" | "newreno" | "bbr");
+            v.push(json!({"ev":"Reset","run":run,"n":n,"c":c,"clean":clean,"builtin":builtin}));
         }
         let a = sent_list(pre);
         let b = sent_list(post);
@@ -838,6 +842,7 @@ pub fn recovery(trace: &[Value]) -> Vec<Value> {
             "pifae":if has_prev { post["prev"]["ifae"].clone() } else { json!(-1) },
             "sum":sum_cur,"cnt":cnt_cur,"psum":sum_prev,"pcnt":cnt_prev,
             "pre_ifb":pre["path"]["ifb"],"cwnd":cap(&pre["path"]["cwnd"]),"lp":lp,"next":nextpn,
+            "cwnd1":cap(&post["path"]["cwnd"]),"mtu1":cap(&post["path"]["mtu"]),
             "pathchg":pre["path"]["gen"] != post["path"]["gen"],
             "zchg":zacc_change,"retry":retry,"st":post["st"]}));
     }
